@@ -312,6 +312,8 @@ def run(chk, replay=None):
         "plain any_sender_of<...> forwards the stop token only; receiver queries must be declared with with_receiver_queries<...> "
         "(any_sender_of.hpp:203-211, 288-289); plain wrappers are compared against the model with the queries reset at the wrapper",
         "any_sender_of's static traits are conservative (blocking = maybe, sends_done = true, error_types = exception_ptr): not compared",
+        "doc/type_erasure.md documents `explicit any_unique(std::allocator_arg_t, Allocator, T&&)`; the code only has "
+        "`any_unique(T&&, Allocator)` (probe uniq_doc_allocator_arg_value_ctor, informational)",
         "any_object: a CPO call on a wrapper emptied by a move (heap storage) or a failed assignment is undefined (null dereference / "
         "std::abort through invalid_obj): outside the machine's domain, never generated"]
     chk.cov["exhaustive"] = False
